@@ -1,83 +1,287 @@
 package main
 
-// C10 — facts about the Bytes/String convenience wrappers and the observable size limits.
-//   bytesWrapper / stringWrapper: how the minifier's input is derived from the caller's data
-//     ("copy" = parse.Copy(v) / append([]byte(nil), v...), "conv" = []byte(v) of a string (always a fresh copy),
-//      "alias" = the caller's slice itself) and what is returned on error ("orig" = the parameter v itself).
-//   limits: every comparison against an integer literal >= 50 in the library packages (recursion and size limits).
+// C10 — facts about the Bytes/String convenience wrappers and the observable size limits, read from the type-checked AST.
+//
+//   bytesInput / stringInput: how the bytes the minifier reads are derived from the caller's data:
+//     "copy"  = parse.Copy(v) / bytes.Clone(v) / slices.Clone(v) / append(<empty slice>, v...)   (a private copy)
+//     "conv"  = []byte(v) of a string (always a fresh copy)
+//     "alias" = the caller's slice itself, also when re-sliced (v[:], v[:len(v):len(v)]) or handed through locals
+//   The argument of m.Minify is followed through locals that are defined once (`in := buffer.NewReader(private)`), so hoisting
+//   a sub-expression into a variable does not change the fact, and handing the caller's array over in disguise does not hide it.
+//   bytesOnErr / stringOnErr: "orig" when every `return x, err` whose error result is not the literal nil returns the
+//   parameter itself as x (whatever the statements around it look like).
+//
+//   limitKeys: the size / recursion limits as `pkg: boundary N` with a count: a comparison between a non-constant int
+//   expression X and an integer constant (literal, named constant, constant expression — by value, through go/constant)
+//   that separates X <= N from X > N with N >= 49, in whatever spelling (`N < X`, `X > N`, `X >= N+1`, `N+1 <= X`, `!(…)` of
+//   those, `N < X+1` is boundary N-1).  The function the comparison sits in, the names of the variables and whether the limit
+//   is tested inline or in a helper predicate are not part of the key; `limits` lists them with their functions for the reader.
+//   The Lean side demands that every limit it knows is still present (Props/C10 limits_ok); additional comparisons are
+//   ignored, so an unrelated numeric comparison is not an alarm, while removing a limit or changing its value is.
 
 import (
 	"fmt"
 	"go/ast"
+	"go/constant"
 	"go/token"
+	"go/types"
 	"sort"
-	"strconv"
 	"strings"
+
+	"golang.org/x/tools/go/packages"
 )
 
-func c10Wrapper(r *Repo, name string) (string, string, error) {
-	fd, err := r.FindFunc(".", "*M", name)
+func c10Wrapper(e *tenv, name string) (string, string, error) {
+	fd, p, err := e.FuncDecl(".", "M", name)
 	if err != nil {
 		return "", "", err
 	}
-	if len(fd.Type.Params.List) != 2 || len(fd.Type.Params.List[1].Names) != 1 {
+	info := p.TypesInfo
+	var params []*types.Var
+	for _, f := range fd.Type.Params.List {
+		for _, n := range f.Names {
+			v, _ := info.Defs[n].(*types.Var)
+			params = append(params, v)
+		}
+	}
+	if len(params) != 2 || params[1] == nil {
 		return "", "", fmt.Errorf("%s: unexpected parameters", name)
 	}
-	v := fd.Type.Params.List[1].Names[0].Name
-	input, onErr := "unknown", "unknown"
-	ast.Inspect(fd.Body, func(n ast.Node) bool {
-		switch x := n.(type) {
-		case *ast.CallExpr:
-			if exprText(r.Fset, x.Fun) == "buffer.NewReader" && len(x.Args) == 1 {
-				a := x.Args[0]
-				switch t := a.(type) {
-				case *ast.Ident:
-					if t.Name == v {
-						input = "alias"
-					}
-				case *ast.CallExpr:
-					ft := exprText(r.Fset, t.Fun)
-					if ft == "parse.Copy" && len(t.Args) == 1 && exprText(r.Fset, t.Args[0]) == v {
-						input = "copy"
-					} else if at, ok := t.Fun.(*ast.ArrayType); ok && at.Len == nil && len(t.Args) == 1 && exprText(r.Fset, t.Args[0]) == v {
-						input = "conv"
-					} else if ft == "append" && len(t.Args) == 2 && t.Ellipsis != token.NoPos && exprText(r.Fset, t.Args[1]) == v {
-						input = "copy"
-					} else if ft == "bytes.Clone" && len(t.Args) == 1 && exprText(r.Fset, t.Args[0]) == v {
-						input = "copy"
-					}
+	v := params[1]
+	single := singleDefs(p)
+	// resolve: follow once-defined locals
+	var resolve func(x ast.Expr, depth int) ast.Expr
+	resolve = func(x ast.Expr, depth int) ast.Expr {
+		x = unparen(x)
+		if id, ok := x.(*ast.Ident); ok && depth < 10 {
+			if obj := info.Uses[id]; obj != nil {
+				if def, ok := single[obj]; ok {
+					return resolve(def, depth+1)
 				}
 			}
-		case *ast.IfStmt:
-			// if err := m.Minify(…); err != nil { return v, err }
-			if len(x.Body.List) == 1 {
-				if ret, ok := x.Body.List[0].(*ast.ReturnStmt); ok && len(ret.Results) == 2 {
-					if exprText(r.Fset, ret.Results[0]) == v && exprText(r.Fset, ret.Results[1]) == "err" {
-						onErr = "orig"
-					} else {
-						onErr = "other:" + exprText(r.Fset, ret.Results[0])
-					}
+		}
+		return x
+	}
+	// isParam: x is the parameter itself, possibly re-sliced / through locals
+	var isParam func(x ast.Expr, depth int) bool
+	isParam = func(x ast.Expr, depth int) bool {
+		x = resolve(x, 0)
+		switch t := x.(type) {
+		case *ast.Ident:
+			return info.Uses[t] == v
+		case *ast.SliceExpr:
+			return depth < 10 && isParam(t.X, depth+1)
+		}
+		return false
+	}
+	isFuncNamed := func(call *ast.CallExpr, names ...string) bool {
+		fn := calleeOf(info, call)
+		if fn == nil || fn.Pkg() == nil {
+			return false
+		}
+		full := fn.Pkg().Path() + "." + fn.Name()
+		for _, n := range names {
+			if full == n {
+				return true
+			}
+		}
+		return false
+	}
+	isEmptyByteSlice := func(x ast.Expr) bool {
+		x = resolve(x, 0)
+		switch t := x.(type) {
+		case *ast.Ident:
+			_, isNil := info.Uses[t].(*types.Nil)
+			return isNil
+		case *ast.CallExpr:
+			if tv, ok := info.Types[t.Fun]; ok && tv.IsType() && len(t.Args) == 1 { // []byte(nil)
+				if id, ok := unparen(t.Args[0]).(*ast.Ident); ok {
+					_, isNil := info.Uses[id].(*types.Nil)
+					return isNil
 				}
+			}
+			if id, ok := unparen(t.Fun).(*ast.Ident); ok && id.Name == "make" && len(t.Args) >= 2 {
+				if _, isB := info.Uses[id].(*types.Builtin); isB {
+					n, err := e.Int(p, t.Args[1])
+					return err == nil && n == 0
+				}
+			}
+		case *ast.CompositeLit:
+			return len(t.Elts) == 0
+		}
+		return false
+	}
+	classify := func(x ast.Expr) string {
+		if isParam(x, 0) {
+			return "alias"
+		}
+		x = resolve(x, 0)
+		call, ok := x.(*ast.CallExpr)
+		if !ok {
+			return "unknown"
+		}
+		if tv, ok := info.Types[call.Fun]; ok && tv.IsType() && len(call.Args) == 1 {
+			if isByteSlice(tv.Type) && isParam(call.Args[0], 0) {
+				if isString(v.Type()) {
+					return "conv"
+				}
+				return "alias" // []byte(v) of a byte slice is v
+			}
+			return "unknown"
+		}
+		if isFuncNamed(call, "github.com/tdewolff/parse/v2.Copy", "bytes.Clone", "slices.Clone") && len(call.Args) == 1 && isParam(call.Args[0], 0) {
+			return "copy"
+		}
+		if id, ok := unparen(call.Fun).(*ast.Ident); ok && id.Name == "append" {
+			if _, isB := info.Uses[id].(*types.Builtin); isB && len(call.Args) == 2 && call.Ellipsis != token.NoPos && isEmptyByteSlice(call.Args[0]) && isParam(call.Args[1], 0) {
+				return "copy"
+			}
+		}
+		return "unknown"
+	}
+	input, onErr := "unknown", "unknown"
+	nMinify := 0
+	ast.Inspect(fd.Body, func(n ast.Node) bool {
+		switch x := n.(type) {
+		case *ast.FuncLit:
+			return false
+		case *ast.CallExpr:
+			fn := calleeOf(info, x)
+			if fn == nil || fn.Name() != "Minify" || len(x.Args) != 3 {
+				return true
+			}
+			if sig, ok := fn.Type().(*types.Signature); !ok || sig.Recv() == nil || shortFuncName(fn) != "minify.M.Minify" {
+				return true
+			}
+			nMinify++
+			rd := resolve(x.Args[2], 0)
+			if rc, ok := rd.(*ast.CallExpr); ok && isFuncNamed(rc, "github.com/tdewolff/parse/v2/buffer.NewReader", "bytes.NewReader", "bytes.NewBuffer") && len(rc.Args) == 1 {
+				input = classify(rc.Args[0])
+			} else {
+				input = "unknown"
+			}
+		case *ast.ReturnStmt:
+			if len(x.Results) != 2 {
+				return true
+			}
+			if id, ok := unparen(x.Results[1]).(*ast.Ident); ok {
+				if _, isNil := info.Uses[id].(*types.Nil); isNil {
+					return true
+				}
+			}
+			if id, ok := resolve(x.Results[0], 0).(*ast.Ident); ok && info.Uses[id] == v {
+				if onErr == "unknown" {
+					onErr = "orig"
+				}
+			} else {
+				onErr = "other:" + types.ExprString(x.Results[0])
 			}
 		}
 		return true
 	})
+	if nMinify != 1 {
+		return "", "", fmt.Errorf("M.%s: expected exactly one call of m.Minify, found %d", name, nMinify)
+	}
 	return input, onErr, nil
+}
+
+type c10Limit struct {
+	pkg, fn  string
+	boundary int64
+	text     string
+}
+
+// c10Boundary: cmp is `L op R` with exactly one constant side; returns N such that the comparison separates X <= N from X > N
+// for the non-constant side X (after folding a constant addend of X), and X.
+func c10Boundary(e *tenv, p *packages.Package, cmp *ast.BinaryExpr) (int64, ast.Expr, bool) {
+	info := p.TypesInfo
+	constOf := func(x ast.Expr) (int64, bool) {
+		tv, ok := info.Types[x]
+		if !ok || tv.Value == nil {
+			return 0, false
+		}
+		v := constant.ToInt(tv.Value)
+		if v.Kind() != constant.Int {
+			return 0, false
+		}
+		n, exact := constant.Int64Val(v)
+		return n, exact
+	}
+	op := cmp.Op
+	l, r := unparen(cmp.X), unparen(cmp.Y)
+	lc, lok := constOf(l)
+	rc, rok := constOf(r)
+	if lok == rok {
+		return 0, nil, false
+	}
+	var x ast.Expr
+	var c int64
+	if lok { // c op X  ==  X op' c
+		x, c = r, lc
+		switch op {
+		case token.LSS:
+			op = token.GTR
+		case token.GTR:
+			op = token.LSS
+		case token.LEQ:
+			op = token.GEQ
+		case token.GEQ:
+			op = token.LEQ
+		}
+	} else {
+		x, c = l, rc
+	}
+	// X + k op c  ==  X op c - k
+	for {
+		b, ok := unparen(x).(*ast.BinaryExpr)
+		if !ok || (b.Op != token.ADD && b.Op != token.SUB) {
+			break
+		}
+		if k, ok := constOf(b.Y); ok {
+			if b.Op == token.ADD {
+				c -= k
+			} else {
+				c += k
+			}
+			x = b.X
+			continue
+		}
+		if k, ok := constOf(b.X); ok && b.Op == token.ADD {
+			c -= k
+			x = b.Y
+			continue
+		}
+		break
+	}
+	switch op {
+	case token.GTR, token.LEQ: // X > c, X <= c
+		return c, unparen(x), true
+	case token.GEQ, token.LSS: // X >= c, X < c
+		if c == -1<<63 {
+			return 0, nil, false
+		}
+		return c - 1, unparen(x), true
+	}
+	return 0, nil, false
 }
 
 func init() {
 	gen("ApiFacts", func(r *Repo) (string, error) {
-		bi, be, err := c10Wrapper(r, "Bytes")
+		e, err := r.TEnv()
 		if err != nil {
 			return "", err
 		}
-		si, se, err := c10Wrapper(r, "String")
+		bi, be, err := c10Wrapper(e, "Bytes")
 		if err != nil {
 			return "", err
 		}
-		var limits []string
+		si, se, err := c10Wrapper(e, "String")
+		if err != nil {
+			return "", err
+		}
+		var limits []c10Limit
 		for _, rel := range []string{".", "css", "html", "js", "json", "svg", "xml"} {
-			fs, err := r.Files(rel)
+			p, err := e.Pkg(rel)
 			if err != nil {
 				return "", err
 			}
@@ -85,8 +289,9 @@ func init() {
 			if rel == "." {
 				pkg = "minify"
 			}
-			for _, f := range fs {
-				if strings.HasSuffix(r.Fset.Position(f.Pos()).Filename, "hash.go") {
+			info := p.TypesInfo
+			for _, f := range p.Syntax {
+				if !isRepoFile(r.Fset, f) {
 					continue
 				}
 				for _, d := range f.Decls {
@@ -95,41 +300,88 @@ func init() {
 						continue
 					}
 					ast.Inspect(fd.Body, func(n ast.Node) bool {
-						be, ok := n.(*ast.BinaryExpr)
+						cmp, ok := n.(*ast.BinaryExpr)
 						if !ok {
 							return true
 						}
-						switch be.Op {
+						switch cmp.Op {
 						case token.LSS, token.GTR, token.LEQ, token.GEQ:
 						default:
 							return true
 						}
-						for _, side := range []ast.Expr{be.X, be.Y} {
-							if lit, ok := side.(*ast.BasicLit); ok && lit.Kind == token.INT && !strings.HasPrefix(lit.Value, "0x") && !strings.HasPrefix(lit.Value, "0X") { // hex literals are byte classes, not size limits
-								if v, err := strconv.ParseInt(lit.Value, 0, 64); err == nil && v >= 50 {
-									l, rr := exprText(r.Fset, be.X), exprText(r.Fset, be.Y)
-									if x, ok := be.X.(*ast.BasicLit); ok {
-										l = x.Value
-									}
-									if y, ok := be.Y.(*ast.BasicLit); ok {
-										rr = y.Value
-									}
-									limits = append(limits, fmt.Sprintf("%s.%s: %s %s %s", pkg, funcName(fd), l, be.Op, rr))
-								}
-							}
+						b, x, ok := c10Boundary(e, p, cmp)
+						if !ok || b < 49 {
+							return true
 						}
+						// sizes, counts and depths are ints; bytes and runes compared with constants are character classes
+						t := info.TypeOf(x)
+						if t == nil {
+							return true
+						}
+						bt, isBasic := t.Underlying().(*types.Basic)
+						if !isBasic {
+							return true
+						}
+						switch bt.Kind() {
+						case types.Int, types.Int64, types.Uint, types.Uint64, types.UntypedInt:
+						default:
+							return true
+						}
+						limits = append(limits, c10Limit{pkg, funcName(fd), b, types.ExprString(cmp)})
 						return true
 					})
 				}
 			}
 		}
-		sort.Strings(limits)
+		sort.Slice(limits, func(i, j int) bool {
+			a, b := limits[i], limits[j]
+			if a.pkg != b.pkg {
+				return a.pkg < b.pkg
+			}
+			if a.boundary != b.boundary {
+				return a.boundary < b.boundary
+			}
+			if a.fn != b.fn {
+				return a.fn < b.fn
+			}
+			return a.text < b.text
+		})
 		var b strings.Builder
-		b.WriteString(header("ApiFacts", "/repo/minify.go (Bytes, String) and integer-literal comparisons in the library packages"))
+		b.WriteString(header("ApiFacts", "/repo/minify.go (Bytes, String) and comparisons with integer constants in the library packages"))
 		fmt.Fprintf(&b, "/-- how `M.Bytes` derives the minifier's input from the caller's slice -/\ndef bytesInput : String := %s\n", leanStr(bi))
 		fmt.Fprintf(&b, "/-- what `M.Bytes` returns when the minifier fails -/\ndef bytesOnErr : String := %s\n", leanStr(be))
 		fmt.Fprintf(&b, "def stringInput : String := %s\ndef stringOnErr : String := %s\n\n", leanStr(si), leanStr(se))
-		fmt.Fprintf(&b, "/-- comparisons against integer literals >= 50: the observable recursion/size limits -/\ndef limits : List String := %s\n", leanStrList(limits))
+		counts := map[string]int{}
+		var keys []string
+		for _, l := range limits {
+			k := fmt.Sprintf("%s: boundary %d", l.pkg, l.boundary)
+			if counts[k] == 0 {
+				keys = append(keys, k)
+			}
+			counts[k]++
+		}
+		b.WriteString("/-- `pkg: boundary N` ↦ number of comparisons in that package that separate `X <= N` from `X > N` for an int expression X\n    (N >= 49; constants by value; spelling, variable and function names do not matter) -/\ndef limitKeys : List (String × Nat) := [\n")
+		for i, k := range keys {
+			sep := ","
+			if i == len(keys)-1 {
+				sep = ""
+			}
+			fmt.Fprintf(&b, "  (%s, %d)%s\n", leanStr(k), counts[k], sep)
+		}
+		b.WriteString("]\n\n")
+		var ls []string
+		for _, l := range limits {
+			ls = append(ls, fmt.Sprintf("%s.%s: boundary %d: %s", l.pkg, l.fn, l.boundary, l.text))
+		}
+		fmt.Fprintf(&b, "/-- the same comparisons with their functions and source text (for the reader; no theorem depends on it) -/\ndef limits : List String := [\n")
+		for i, l := range ls {
+			sep := ","
+			if i == len(ls)-1 {
+				sep = ""
+			}
+			fmt.Fprintf(&b, "  %s%s\n", leanStr(l), sep)
+		}
+		b.WriteString("]\n")
 		b.WriteString(footer("ApiFacts"))
 		return b.String(), nil
 	})
